@@ -5,6 +5,7 @@ import (
 	"net/http"
 	"sort"
 	"strings"
+	"unicode/utf8"
 
 	"github.com/johannesboyne/gofakes3"
 
@@ -333,7 +334,7 @@ func newListBucket(t c03Target) (*drv.Server, string) {
 func runC03(c *Ctx) {
 	r := c.R
 	maxLen := r.Pick(3, 4)
-	r.SetRule(fmt.Sprintf("exhaustive: keys over {a,b,/} up to length %d not starting/ending with '/', bucket contents = every subset of size <= %d (quick: 3, thorough: 2 plus random larger ones) reached by put/delete transitions, every prefix up to length %d not starting with the delimiter, delimiters absent and '/' on every backend plus 'b','-','.' on mem/bolt, V1, V2 and Go API; random: rich keys (escaped characters, multi-byte, characters sorting before '/'); distinct = (backend, live key set, prefix, delimiter, API form)", maxLen, r.Pick(3, 2), maxLen))
+	r.SetRule(fmt.Sprintf("exhaustive: keys over {a,b,/} up to length %d not starting/ending with '/', bucket contents = every subset of size <= %d (quick: 3, thorough: 2 plus random larger ones) reached by put/delete transitions, every prefix up to length %d not starting with the delimiter, delimiters absent and '/' on every backend plus 'b','-','.' on mem/bolt, V1, V2 and Go API; random: rich keys (escaped characters, multi-byte, characters sorting before '/') with every byte prefix of every live key, including prefixes that end inside a multi-byte character; distinct = (backend, live key set, prefix, delimiter, API form)", maxLen, r.Pick(3, 2), maxLen))
 	r.Exhaustive(true)
 	targets := []c03Target{{drv.Mem, false}, {drv.Mem, true}, {drv.Bolt, false}, {drv.FsMM, false}, {drv.FsDir, false}, {drv.SingleMM, false}, {drv.SingleDir, false}}
 	var tn []string
@@ -530,6 +531,12 @@ func c03Random(r *rep.Reporter, s *drv.Server, bucket string, t c03Target, idx i
 				pset[k[:i]] = true
 			}
 			pset[k] = true
+			// keys are byte strings: a prefix may also end inside a multi-byte character
+			for i := 1; i < len(k); i++ {
+				if !utf8.RuneStart(k[i]) {
+					pset[k[:i]] = true
+				}
+			}
 		}
 		for i := 0; i < 5; i++ {
 			pset[richKey(rng, 3)] = true
